@@ -29,24 +29,29 @@ in order).
           `locked()` also counts woken tasks that have not run yet)
   `d<i>:<taken>:<count>`  holder i leaves: `finally` block (record, maybe recalibrate), `__aexit__`
   `r<i>`  the woken caller i runs (must be the first woken task)
-  `c<i>`  a queued caller is cancelled (also: a woken caller cancelled before it ran — the permit
+  `X<i>`  `cancel()` is called on caller i's task (takes effect on the semaphore at once if the
+          caller is still blocked in `acquire()`)
+  `c<i>`  a queued caller's task runs and sees the cancellation (also: a woken caller cancelled before it ran — the permit
           goes back and the next waiter is woken) -/
 structure SS where
   st : C13.Lim
   woken : List Nat
   times : List Rat
+  zombies : List Nat := []   -- queued callers whose future was cancelled; their task has not run yet
 
 inductive SOp where
   | send (i : Nat)
   | done (i : Nat) (taken : Rat) (count : Nat)
   | resume (i : Nat)
   | cancel (i : Nat)
+  | cancelCalled (i : Nat)
 
 def parseSOp (s : String) : Option SOp :=
   match s.toList with
   | 's' :: r => (String.ofList r).toNat?.map SOp.send
   | 'c' :: r => (String.ofList r).toNat?.map SOp.cancel
   | 'r' :: r => (String.ofList r).toNat?.map SOp.resume
+  | 'X' :: r => (String.ofList r).toNat?.map SOp.cancelCalled
   | 'd' :: r =>
       match (String.ofList r).splitOn ":" with
       | [i, t, n] =>
@@ -70,10 +75,10 @@ def sstep (c : OCfg) (s : SS) : SOp → SS × List C13.Ev × Option Rat
         let pre := if times.length ≥ c.recalibrate then some (preRound s.st.T c.trt (avgOf times)) else none
         let o1 := record c ⟨s.st, s.times⟩ taken count
         let s1 : C13.Lim := { o1.lim with holders := o1.lim.holders.erase i }
-        if s1.V > s1.T then ({ st := { s1 with V := s1.V - 1 }, woken := s.woken, times := o1.times }, [], pre)
+        if s1.V > s1.T then ({ s with st := { s1 with V := s1.V - 1 }, times := o1.times }, [], pre)
         else
           let w := C13.release ⟨s1, s.woken, []⟩
-          ({ st := w.st, woken := w.woken, times := o1.times }, [], pre)
+          ({ s with st := w.st, woken := w.woken, times := o1.times }, [], pre)
       else (s, [C13.Ev.bad], none)
   | .resume i =>
       match s.woken with
@@ -83,8 +88,16 @@ def sstep (c : OCfg) (s : SS) : SOp → SS × List C13.Ev × Option Rat
             ({ s with st := w.st, woken := w.woken }, w.evs, none)
           else (s, [C13.Ev.bad], none)
       | [] => (s, [C13.Ev.bad], none)
-  | .cancel i =>
+  | .cancelCalled i =>
+      -- `task.cancel()` on a caller blocked in `acquire()` cancels its future at once: from now
+      -- on `_wake_up_next` and `locked()` ignore it; the task notices when it runs (`c<i>`)
       if i ∈ s.st.waiters then
+        ({ s with st := { s.st with waiters := s.st.waiters.erase i }, zombies := s.zombies ++ [i] }, [], none)
+      else (s, [], none)
+  | .cancel i =>
+      if i ∈ s.zombies then
+        ({ s with zombies := s.zombies.erase i }, [C13.Ev.cancelled i], none)
+      else if i ∈ s.st.waiters then
         ({ s with st := { s.st with waiters := s.st.waiters.erase i } }, [C13.Ev.cancelled i], none)
       else
         -- the cancelled caller had already been woken (its future has a result) and runs now:
@@ -143,7 +156,7 @@ def handle (line : String) : String :=
       match n.toNat?, parseRat trt, rc.toNat?, ops.mapM parseSOp with
       | some n, some trt, some rc, some ops =>
           if ops.isEmpty then "." else
-            String.intercalate " | " (sgo ⟨trt, rc⟩ ⟨C13.init n, [], []⟩ ops)
+            String.intercalate " | " (sgo ⟨trt, rc⟩ ⟨C13.init n, [], [], []⟩ ops)
       | _, _, _, _ => "bad-op"
   | _ => "bad-op"
 
